@@ -303,6 +303,7 @@ func TestC12(t *testing.T) { h.RunProp(t, "C12", genC12, checkC12) }
 func TestC12_Replay(t *testing.T) {
 	h.RunReplay(t, "C12", checkC12)
 	h.RunReplay(t, "C12.twin", checkC12Twin)
+	h.RunReplay(t, "C12.enc", checkC12Enc)
 }
 
 // TestC12_Grid: the exact boundary for every limit and entry point, plus the default limit and a bomb.
